@@ -237,7 +237,7 @@ func c14Parse(c *Ctx) {
 	// validated domain of bitsFromASCII
 	if bf := c.fn(rule, wsflate, "bitsFromASCII"); bf != nil {
 		m := c.machine()
-		dom := &fold.IntDom{Name: "n", Lo: -1 << 40, Hi: 1 << 40}
+		dom := &fold.IntDom{Name: "n", Lo: -bigLen(), Hi: bigLen()}
 		var curCell fold.Int
 		m.Models["github.com/gobwas/httphead.IntFromASCII"] = func(cl *fold.Call) fold.Val {
 			return fold.Tuple{curCell, fold.Bool(cl.M.Choose("numeric", 2) == 1)}
